@@ -28,7 +28,19 @@ def make_task(d, sid, sv, stop):
 
     async def task():
         d.obs("Started", sid)
-        add_teardown_callback(lambda: d.obs("Finished", sid))     # runs when the task's own context is torn down
+
+        async def own_context_teardown():
+            # runs when the task's own context is torn down, after the task function is over;
+            # only then has the task finished
+            with anyio.CancelScope(shield=True):
+                for _ in range(sv.get("ctx", 0)):
+                    await d.gate(f"T{sid}")
+                    d.obs("CtxSeg", sid)
+            d.obs("Finished", sid)
+        if sv.get("ctx", 0):
+            add_teardown_callback(own_context_teardown)
+        else:
+            add_teardown_callback(lambda: d.obs("Finished", sid))
         try:
             for i in range(sv["run"]):
                 await d.gate(f"T{sid}")
